@@ -322,6 +322,9 @@ func runWorldProp(t *testing.T, id string) {
 		if p.Adapt != nil {
 			p.Adapt(&g, activeKnown[p.ID], getStats(p.ID))
 		}
+		if len(g.Tempos) > 0 {
+			g.MaxDt = g.Tempos[uniform(rt, len(g.Tempos), "tempo")]
+		}
 		runCase(rt, p, cfg, func(m *Machine, i int) (Action, bool) {
 			if i >= n {
 				return Action{}, false
